@@ -402,14 +402,25 @@ Definition nth_ad (ads : list adesc) (j : nat) : adesc := nth j ads (mkA 0 [] []
 Definition cinst := (list Z * list (list Z))%type.
 Definition ev_items (ads : list adesc) : item -> cinst -> res := item_lik (fun j s => lik_of (nth_ad ads j) s).
 Definition vis_items (ads : list adesc) : item -> cinst -> res := item_lik (fun j s => vis_of (nth_ad ads j) s).
-(* a member with the state it set up in place in modify_before_fit (an offset of its likelihood) *)
-Definition member := (item * Z)%type.
+(* a member with the state it set up in place in modify_before_fit (an offset of its likelihood) and the
+   number of positions of the sum that hold the SAME analysis object (a + b + a: 2, 1, 2).  The harness
+   analyses change themselves in place and return self, and modify_before_fit is called once per POSITION
+   (CombinedAnalysis._for_each_analysis / IndexCollectionAnalysis.modify_before_fit), so an object written
+   k times is modified k times and every one of its k positions sees all k modifications.  Objects are
+   identified by (analysis id, with_model wrapper): `a` and `a.with_model(m)` are different objects *)
+Definition member := (item * (Z * Z))%type.
+Definition m_off (m : member) : Z := fst (snd m).
+Definition m_mult (m : member) : Z := snd (snd m).
 Definition shift (off : Z) (r : res) : res := match r with RVal v => RVal (v + off) | e => e end.
-Definition ev_members (ads : list adesc) : member -> cinst -> res := fun m x => shift (snd m) (ev_items ads (fst m) x).
+Definition ev_members (ads : list adesc) : member -> cinst -> res := fun m x => shift (m_off m) (ev_items ads (fst m) x).
 Definition vis_members (ads : list adesc) : member -> cinst -> res := fun m x => vis_items ads (fst m) x.
 (* a ModelAnalysis inherits the default modify_before_fit of Analysis: the wrapped analysis is not asked *)
-Definition modf_member (d : Z) (m : member) : member := if item_hm (fst m) then m else (fst m, (snd m + d)%Z).
-Definition fresh_members (its : list item) : list member := map (fun it => (it, 0%Z)) its.
+Definition modf_member (d : Z) (m : member) : member :=
+  if item_hm (fst m) then m else (fst m, ((m_off m + d * m_mult m)%Z, m_mult m)).
+Definition same_object (a b : item) : bool := Nat.eqb (item_id a) (item_id b) && Bool.eqb (item_hm a) (item_hm b).
+Definition occurrences (its : list item) (it : item) : nat := length (filter (same_object it) its).
+Definition fresh_members (its : list item) : list member :=
+  map (fun it => (it, (0%Z, Z.of_nat (occurrences its it)))) its.
 
 Definition res_eqb (a b : res) : bool :=
   match a, b with RVal v, RVal w => Z.eqb v w | RExc k, RExc l => Nat.eqb k l | _, _ => false end.
